@@ -378,7 +378,7 @@ pub fn prop() -> Prop<Case> {
         assumptions: &[
             "interleavings are at transport-operation granularity on sequentially consistent local storage",
         ],
-        cases: |t| t.pick(400, 10_000),
+        cases: |t| t.pick(400, 5_000),
         strategy,
         run,
         enumerate: None,
